@@ -415,7 +415,8 @@ class ValueWrapper(Term):
         if isinstance(value, uuid.UUID):
             return cls.get_formatted_value(str(value), ctx)
         if isinstance(value, (dict, list)):
-            return format_quotes(json.dumps(value), quote_char)
+            # the JSON text is a string literal like any other: its quotes must be doubled as well
+            return cls.get_formatted_value(json.dumps(value), ctx)
         if value is None:
             return "null"
         return str(value)
